@@ -21,7 +21,7 @@ EXPLANATION = (
     'R4 facts of the parsed regexes: the trailing-whitespace class contains space and tab and is anchored at line ends, the string-prefix '
     'patterns keep their (non-word | start) boundary guard and their replacement keeps groups 1 and 2, the ANSI pattern starts with the CSI introducer. '
     'The relation on concrete strings and its monotonicity in the flags are not decided.')
-DECIDES = ['MUST-PASS equality shortcut', 'GUARD-DOM flag->step table', 'got/want sibling SYMMETRY', 'REGEX-FACTs']
+DECIDES = ['MUST-PASS equality shortcut', 'GUARD-DOM flag->step table', 'got/want sibling SYMMETRY', 'step ORDER (partial order the relation depends on)', 'REGEX-FACTs']
 NOT_DECIDED = ['the relation on concrete (got, want) strings', 'monotonicity in the leniency flags', 'exactness up to trailing whitespace with all leniencies off']
 
 NORM = 'xdoctest.checker.normalize'
@@ -108,12 +108,39 @@ def canon_fact(fa):
     return None
 
 
-def classify_steps(ctx, f):
-    """[(role, call ast, subject expr)] transformation sites of normalize, by role"""
+class Step:
+    """one normalisation step found by role.  `via` is the call of a nested helper in normalize() through which the
+    step is applied (inlining bound 1), `func` the function whose body contains `call`."""
+
+    def __init__(self, role, call, subj, func, via=None):
+        self.role, self.call, self.subj, self.func, self.via = role, call, subj, func, via
+
+    def __iter__(self):          # (role, call, subject) for older callers
+        return iter((self.role, self.call, self.subj))
+
+
+def _regex_roles(ctx, f, rx_expr, node_hint=None):
+    """which prefix patterns a regex argument may denote"""
+    if is_name(rx_expr, 'unicode_literal_re'):
+        return ['prefix:unicode']
+    if is_name(rx_expr, 'bytes_literal_re'):
+        return ['prefix:bytes']
+    if isinstance(rx_expr, ast.Name):
+        # loop variable over a tuple of the two patterns
+        for n in walk_scope(f.node):
+            if isinstance(n, ast.For) and is_name(n.target, rx_expr.id) and isinstance(n.iter, (ast.Tuple, ast.List)):
+                out = []
+                for e in n.iter.elts:
+                    out += _regex_roles(ctx, f, e)
+                return out
+    return ['prefix:?']
+
+
+def classify_steps(ctx, f, depth=0):
+    """transformation sites of normalize (and of its nested pure helpers), by role"""
     fold = consts.Folder(ctx.prog)
     mod = f.module
     out = []
-    nested = f.nested
     for c in walk_scope(f.node):
         if not isinstance(c, ast.Call):
             continue
@@ -122,35 +149,38 @@ def classify_steps(ctx, f):
         if r[0] == 'repo':
             q = r[1][0].qualname
             if q == 'xdoctest.utils.util_str.strip_ansi':
-                out.append(('strip_ansi', c, c.args[0]))
+                out.append(Step('strip_ansi', c, c.args[0], f))
                 continue
             if q == 'xdoctest.checker.remove_blankline_marker':
-                out.append(('blankline', c, c.args[0]))
+                out.append(Step('blankline', c, c.args[0], f))
                 continue
             callee = r[1][0]
-            if callee.parent is f:
+            if callee.parent is f or (f.parent is not None and callee.parent is f.parent):
                 # nested helpers, classified by what their body does
                 body_txt = ast.unparse(callee.node)
-                if any(isinstance(x, ast.Call) and isinstance(x.func, ast.Attribute) and x.func.attr == 'sub' for x in ast.walk(callee.node)) and len(c.args) == 2:
-                    rx = c.args[0]
-                    if is_name(rx, 'unicode_literal_re'):
-                        out.append(('prefix:unicode', c, c.args[1]))
-                    elif is_name(rx, 'bytes_literal_re'):
-                        out.append(('prefix:bytes', c, c.args[1]))
-                    else:
-                        out.append(('prefix:?', c, c.args[1]))
+                has_sub = any(isinstance(x, ast.Call) and isinstance(x.func, ast.Attribute) and x.func.attr == 'sub' for x in ast.walk(callee.node))
+                if has_sub and len(c.args) == 2 and len(callee.node.args.args) == 2 and len(callee.node.body) <= 2:
+                    for role in _regex_roles(ctx, f, c.args[0]):
+                        out.append(Step(role, c, c.args[1], f))
                     continue
-                if "endswith('\\r')" in body_txt:
-                    out.append(('cr_lines', c, c.args[0]))
+                if "endswith('\\r')" in body_txt and len(callee.node.args.args) == 1:
+                    out.append(Step('cr_lines', c, c.args[0], f))
                     continue
                 if '_check_match' in body_txt and len(c.args) == 2:
-                    out.append(('norm_repr', c, c.args[0]))
+                    out.append(Step('norm_repr', c, c.args[0], f))
                     continue
+                # a helper that applies further steps to its single text parameter: inline once
+                if depth < 1 and len(callee.node.args.args) == 1 and len(c.args) == 1:
+                    inner = classify_steps(ctx, callee, depth + 1)
+                    if inner:
+                        for st in inner:
+                            out.append(Step(st.role, st.call, c.args[0], callee, via=c))
+                        continue
         if isinstance(fn, ast.Attribute) and fn.attr == 'sub' and len(c.args) >= 3:
             # re.sub(pattern, repl, text)
             pat = c.args[0]
             if is_name(pat, 'TRAILING_WS'):
-                out.append(('trailing_ws', c, c.args[2]))
+                out.append(Step('trailing_ws', c, c.args[2], f))
                 continue
             try:
                 pv = fold.fold(mod, pat, None, f)
@@ -161,37 +191,56 @@ def classify_steps(ctx, f):
                 if len(rx.items) == 1:
                     cs = consts.item_charset(rx.items[0])
                     if cs is not None and {32, 9, 10} <= cs and ord('a') not in cs and isinstance(c.args[1], ast.Constant) and c.args[1].value == '':
-                        out.append(('ws_delete', c, c.args[2]))
+                        out.append(Step('ws_delete', c, c.args[2], f))
                         continue
-            if is_name(pat, 'unicode_literal_re'):
-                out.append(('prefix:unicode', c, c.args[2]))
-                continue
-            if is_name(pat, 'bytes_literal_re'):
-                out.append(('prefix:bytes', c, c.args[2]))
+            if is_name(pat, 'unicode_literal_re') or is_name(pat, 'bytes_literal_re'):
+                out.append(Step(_regex_roles(ctx, f, pat)[0], c, c.args[2], f))
                 continue
         if isinstance(fn, ast.Attribute) and fn.attr == 'sub' and is_name(fn.value, 'TRAILING_WS') and len(c.args) >= 2:
-            out.append(('trailing_ws', c, c.args[1]))
+            out.append(Step('trailing_ws', c, c.args[1], f))
             continue
         if isinstance(fn, ast.Attribute) and fn.attr == 'rstrip' and not c.args:
-            out.append(('rstrip', c, fn.value))
+            out.append(Step('rstrip', c, fn.value, f))
             continue
         if isinstance(fn, ast.Attribute) and fn.attr == 'join' and isinstance(fn.value, ast.Constant) and fn.value.value == ' ' and len(c.args) == 1:
             a = c.args[0]
             if isinstance(a, ast.Call) and isinstance(a.func, ast.Attribute) and a.func.attr == 'split' and not a.args:
-                out.append(('ws_collapse', c, a.func.value))
+                out.append(Step('ws_collapse', c, a.func.value, f))
                 continue
     return out
+
+
+def _step_nodes(ctx, f, st):
+    """(outer cfg node in normalize, inner cfg node in the helper or None)"""
+    g = ctx.cfg(f)
+    if st.via is None:
+        nodes = [n for n in g.nodes_containing(st.call) if not n.dup]
+        return (nodes[0] if nodes else None), None
+    outer = [n for n in g.nodes_containing(st.via) if not n.dup]
+    gi = ctx.cfg(st.func)
+    inner = [n for n in gi.nodes_containing(st.call) if not n.dup]
+    return (outer[0] if outer else None), (inner[0] if inner else None)
+
+
+def _step_guards(ctx, f, st):
+    g = ctx.cfg(f)
+    dom = ctx.dom(g, g.entry)
+    outer, inner = _step_nodes(ctx, f, st)
+    need(outer is not None, 'C05: step %s not in the CFG' % st.role)
+    facts = list(graph.guard_facts(dom, outer))
+    if inner is not None:
+        gi = ctx.cfg(st.func)
+        facts += [fa for fa in graph.guard_facts(ctx.dom(gi, gi.entry), inner) if fa.polarity in (True, False)]
+    return facts
 
 
 def r2_flag_table(ctx):
     rep = ctx.rep
     f = ctx.func(NORM)
-    g = ctx.cfg(f)
-    dom = ctx.dom(g, g.entry)
     steps = classify_steps(ctx, f)
     roles = {}
-    for (role, c, subj) in steps:
-        roles.setdefault(role, []).append((c, subj))
+    for st in steps:
+        roles.setdefault(st.role, []).append(st)
     table = []
     for role, req in sorted(REQUIRED.items()):
         sites = roles.get(role, [])
@@ -199,19 +248,20 @@ def r2_flag_table(ctx):
             rep.ob('C05.R2', ctx.loc(f, f.node), 'step %s' % role, False,
                    'normalisation step `%s` is no longer applied in normalize()' % role, anchor=NORM)
             continue
-        for (c, subj) in sites:
-            nodes = [n for n in g.nodes_containing(c) if not n.dup]
-            need(nodes, 'C05.R2: step %s not in the CFG' % role)
-            got = frozenset(x for x in (canon_fact(fa) for fa in graph.guard_facts(dom, nodes[0])) if x is not None)
+        for st in sites:
+            facts = _step_guards(ctx, f, st)
+            got = frozenset(x for x in (canon_fact(fa) for fa in facts) if x is not None)
+            # helper-internal loop / non run-state guards are not flags
+            got = frozenset(x for x in got if x[0] != 'expr' or 'runstate' in str(x[1]))
             ok = got == req
-            table.append({'step': role, 'at': ctx.loc(f, c), 'guards': sorted(map(str, got))})
-            rep.ob('C05.R2', ctx.loc(f, c), '%s: %s' % (role, ctx.src(c)), ok,
+            table.append({'step': role, 'at': ctx.loc(st.func, st.call), 'guards': sorted(map(str, got)), 'via': ctx.src(st.via) if st.via is not None else None})
+            rep.ob('C05.R2', ctx.loc(st.func, st.call), '%s: %s' % (role, ctx.src(st.call)), ok,
                    ('controlled by %s' % sorted(map(_fmt_guard, got)) if got else 'unconditional') if ok else
                    'step `%s` must be controlled by %s but is controlled by %s' % (role, sorted(map(_fmt_guard, req)) or 'no flag', sorted(map(_fmt_guard, got)) or 'no flag'),
                    anchor=NORM)
     for role in sorted(set(roles) - set(REQUIRED)):
-        for (c, subj) in roles[role]:
-            rep.ob('C05.R2', ctx.loc(f, c), '%s: %s' % (role, ctx.src(c)), False, 'unrecognised normalisation step', anchor=NORM)
+        for st in roles[role]:
+            rep.ob('C05.R2', ctx.loc(st.func, st.call), '%s: %s' % (role, ctx.src(st.call)), False, 'unrecognised normalisation step', anchor=NORM)
     rep.note('flag_step_table', table)
     # _check_match: ellipsis matcher under ELLIPSIS
     fm = ctx.func(CM)
@@ -264,19 +314,21 @@ def _fmt_guard(g):
 
 
 # ---------------------------------------------------------------------------
-def r3_symmetry(ctx):
-    rep = ctx.rep
-    f = ctx.func(NORM)
+def _side_roots(ctx, f, steps):
+    """function computing which parameter (got / want) an expression of normalize derives from"""
     g = ctx.cfg(f)
     rd = ctx.rd(f)
     params = [a.arg for a in f.node.args.args]
     pg, pw = params[0], params[1]
-    steps = classify_steps(ctx, f)
+    by_call = {}
+    for st in steps:
+        key = id(st.via) if st.via is not None else id(st.call)
+        by_call[key] = st.subj
 
     def roots(node, expr, depth=0, seen=None):
         seen = seen if seen is not None else set()
         out = set()
-        if depth > 12:
+        if depth > 14:
             return {'?'}
         for nm in ast.walk(expr):
             if isinstance(nm, ast.Name) and isinstance(nm.ctx, ast.Load):
@@ -288,32 +340,69 @@ def r3_symmetry(ctx):
                         if d.name in (pg, pw):
                             out.add('got' if d.name == pg else 'want')
                     elif isinstance(d.value, tuple):
-                        # tuple unpack of a call result: side by position is unknown -> both roots of the call
                         out |= roots(d.node, d.value[1], depth + 1, seen)
                     elif isinstance(d.value, ast.AST):
                         v = d.value
-                        # for a transformation call, only its subject argument carries the side
-                        subj = None
-                        for (role, c, s) in steps:
-                            if c is v or (isinstance(v, ast.Call) and c is v):
-                                subj = s
+                        subj = by_call.get(id(v))
                         out |= roots(d.node, subj if subj is not None else v, depth + 1, seen)
         return out
+    return roots
+
+
+def r3_symmetry(ctx):
+    rep = ctx.rep
+    f = ctx.func(NORM)
+    steps = classify_steps(ctx, f)
+    roots = _side_roots(ctx, f, steps)
     sides = {}
-    for (role, c, subj) in steps:
-        nodes = [n for n in g.nodes_containing(c) if not n.dup]
-        if not nodes:
+    per_side = {'got': [], 'want': []}
+    for st in steps:
+        outer, inner = _step_nodes(ctx, f, st)
+        if outer is None:
             continue
-        r = roots(nodes[0], subj)
-        sides.setdefault(role, set()).update(r if len(r) == 1 else {'+'.join(sorted(r)) or '?'})
+        r = roots(outer, st.subj)
+        sides.setdefault(st.role, set()).update(r if len(r) == 1 else {'+'.join(sorted(r)) or '?'})
+        for side in r:
+            if side in per_side:
+                per_side[side].append((st, outer, inner))
     for role in sorted(REQUIRED):
-        s = sides.get(role, set())
+        s_ = sides.get(role, set())
         want_only = role == 'blankline'
-        ok = (s == {'want'}) if want_only else (s == {'got', 'want'})
-        rep.ob('C05.R3', ctx.loc(f, f.node), 'step %s applied to %s' % (role, sorted(s)), ok,
+        ok = (s_ == {'want'}) if want_only else (s_ == {'got', 'want'})
+        rep.ob('C05.R3', ctx.loc(f, f.node), 'step %s applied to %s' % (role, sorted(s_)), ok,
                ('applied to the want only (documented asymmetry)' if want_only else 'applied to got and want alike') if ok else
-               'step `%s` is applied to %s: texts that are identical up to this normalisation would differ' % (role, sorted(s) or 'neither side'), anchor=NORM)
+               'step `%s` is applied to %s: texts that are identical up to this normalisation would differ' % (role, sorted(s_) or 'neither side'), anchor=NORM)
     rep.note('step_sides', {k: sorted(v) for k, v in sides.items()})
+    # R5: order constraints that the relation depends on
+    ORDER = [
+        ('strip_ansi', 'prefix:unicode', 'a colour code ends in the word character "m" and may sit between a prefix letter and its quote: prefixes next to colour codes would survive'),
+        ('strip_ansi', 'prefix:bytes', 'a colour code ends in the word character "m" and may sit between a prefix letter and its quote: prefixes next to colour codes would survive'),
+        ('blankline', 'rstrip', 'a trailing <BLANKLINE> becomes a newline that the final rstrip has to remove'),
+        ('cr_lines', 'ws_collapse', 'whitespace collapsing removes the line structure the carriage-return rule works on'),
+        ('trailing_ws', 'ws_collapse', 'collapsing first would leave nothing line-based to strip'),
+        ('ws_collapse', 'norm_repr', 'quote removal compares the already whitespace-normalised texts'),
+        ('ws_delete', 'norm_repr', 'quote removal compares the already whitespace-normalised texts'),
+    ]
+    g = ctx.cfg(f)
+    dom = ctx.dom(g, g.entry)
+
+    def precedes(a, b):
+        (sa, oa, ia), (sb, ob, ib) = a, b
+        if oa is not ob:
+            return dom.dominates(oa, ob) or (graph.path(oa.nsucc(), lambda x: x is ob, efilter=graph.normal_only) is not None and graph.path(ob.nsucc(), lambda x: x is oa, efilter=graph.normal_only) is None)
+        if ia is not None and ib is not None and sa.func is sb.func:
+            gi = ctx.cfg(sa.func)
+            return ia is not ib and (graph.path(ia.nsucc(), lambda x: x is ib, efilter=graph.normal_only) is not None) and (graph.path(ib.nsucc(), lambda x: x is ia, efilter=graph.normal_only) is None)
+        return False
+    for (first, second, why) in ORDER:
+        for side in ('got', 'want'):
+            A = [x for x in per_side[side] if x[0].role == first]
+            B = [x for x in per_side[side] if x[0].role == second]
+            if not A or not B:
+                continue
+            ok = all(precedes(a, b) for a in A for b in B)
+            rep.ob('C05.R5', ctx.loc(B[0][0].func, B[0][0].call), '%s before %s (%s)' % (first, second, side), ok,
+                   'order kept' if ok else 'step `%s` no longer precedes `%s` on the %s side: %s' % (first, second, side, why), anchor=NORM)
 
 
 # ---------------------------------------------------------------------------
@@ -427,6 +516,16 @@ VARIANTS = [
     fire('collapse-applied-to-got-twice', 'C05.R3', (CK, "        want = ' '.join(want.split())\n", "        want = ' '.join(got.split())\n")),
     fire('shortcut-removed', 'C05.R1', (CK, "        if got == want:\n            return True\n\n        if runstate is None:\n", "        if runstate is None:\n")),
     fire('shortcut-after-normalize-only', 'C05.R1', (CK, "        if got == want:\n            return True\n\n        if runstate is None:\n", "        if got is None:\n            return True\n\n        if runstate is None:\n")),
+    fire('prefixes-before-ansi-in-helper', 'C05.R5',
+         (CK, "    # Remove terminal colors\n    if True:\n        got = utils.strip_ansi(got)\n        want = utils.strip_ansi(want)\n\n    if True:\n        # normalize python 2/3 byte/unicode prefixes\n        got = remove_prefixes(unicode_literal_re, got)\n        want = remove_prefixes(unicode_literal_re, want)\n",
+              "    def unconditional(text):\n        for regex in (unicode_literal_re,):\n            text = remove_prefixes(regex, text)\n        return utils.strip_ansi(text)\n\n    got = unconditional(got)\n    want = unconditional(want)\n    if True:\n")),
+    fire('rstrip-before-blankline', 'C05.R5',
+         (CK, "    # normalize endling newlines\n    want = want.rstrip()\n    got = got.rstrip()\n", ""),
+         (CK, "    # Replace <BLANKLINE>s if it is being used.\n", "    want = want.rstrip()\n    got = got.rstrip()\n    # Replace <BLANKLINE>s if it is being used.\n")),
+    silent('unconditional-steps-in-helper-same-order',
+           (CK, "    # Remove terminal colors\n    if True:\n        got = utils.strip_ansi(got)\n        want = utils.strip_ansi(want)\n\n    if True:\n        # normalize python 2/3 byte/unicode prefixes\n        got = remove_prefixes(unicode_literal_re, got)\n        want = remove_prefixes(unicode_literal_re, want)\n",
+                "    def unconditional(text):\n        text = utils.strip_ansi(text)\n        for regex in (unicode_literal_re,):\n            text = remove_prefixes(regex, text)\n        return text\n\n    got = unconditional(got)\n    want = unconditional(want)\n    if True:\n"),
+           note='behaviour-preserving extraction of the unconditional steps into a nested helper'),
     silent('regex-split-into-pieces', (CK, 'TRAILING_WS = re.compile(r"[ \\t]*$", re.UNICODE | re.MULTILINE)', 'TRAILING_WS = re.compile(r"[ \\t]*" + "$", re.UNICODE | re.MULTILINE)')),
     silent('trailing-ws-plus', (CK, 'TRAILING_WS = re.compile(r"[ \\t]*$", re.UNICODE | re.MULTILINE)', 'TRAILING_WS = re.compile(r"[ \\t\\f\\v]+$", re.UNICODE | re.MULTILINE)')),
     silent('steps-reordered-got-want', (CK, "    got = re.sub(TRAILING_WS, '', got)\n    want = re.sub(TRAILING_WS, '', want)\n", "    want = re.sub(TRAILING_WS, '', want)\n    got = re.sub(TRAILING_WS, '', got)\n")),
